@@ -131,7 +131,7 @@ def b_complex(V, cfg):
     z = V.cplxs("z", shp)
     sig = pym.Signal("z", z)
     cls = dict(RealPart=pym.RealPart, ImagPart=pym.ImagPart, ComplexNorm=pym.ComplexNorm)[which]
-    if which == "ComplexNorm" and V.symbolic:
+    if which == "ComplexNorm" and V.symbolic and not cfg.get("allow_zero"):
         for e in z.flat:
             V.assume((e.re * e.re + e.im * e.im) > 0)
     return Setup(cls(sig), [sig])
